@@ -299,8 +299,11 @@ func NewServerTransport(conn net.Conn, config *ServerConfig) (_ ServerTransport,
 
 	t.controlBuf = newControlBuffer(t.done)
 	if !config.StaticWindowSize {
+		// Start the estimate at the largest configured window: a BDP update must
+		// only ever grow the advertised windows, never shrink a configured one
+		// (which would also yield an illegal WINDOW_UPDATE increment).
 		t.bdpEst = &bdpEstimator{
-			bdp:               initialWindowSize,
+			bdp:               uint32(max(iwz, icwz)),
 			updateFlowControl: t.updateFlowControl,
 		}
 	}
